@@ -4,6 +4,7 @@
 // `>,c` lets the server handle the head of client c's request channel (PerformRead of the
 // server-side descriptor, or its close handler when the client has gone), `<,c` lets client c
 // handle the head of its channel.  Time is virtual (clock_gettime(CLOCK_MONOTONIC) is wrapped).
+#include <poll.h>
 #include <time.h>
 #include <algorithm>
 #include <map>
@@ -25,6 +26,7 @@
 #include "ola/Logging.h"
 #include "ola/base/Flags.h"
 #include "ola/client/OlaClient.h"
+#include "ola/client/StreamingClient.h"
 #include "ola/OlaClientCore.h"
 #include "ola/io/Descriptor.h"
 #include "ola/io/SelectServer.h"
@@ -106,9 +108,11 @@ static string dhash(const DmxBuffer &b) { return dhash(b.GetRaw(), b.Size()); }
 struct World;
 struct Cl {
   int idx;
-  PipeDescriptor *cd;            // client side (owned by us)
-  PipeDescriptor *sd;            // server side (owned by the RpcServer clean-up)
+  ola::io::ConnectedDescriptor *cd;   // client side (owned by us; NULL for a StreamingClient)
+  ola::io::ConnectedDescriptor *sd;   // server side (owned by the RpcServer clean-up)
   OlaClient *client;
+  ola::client::StreamingClient *sclient;   // ola/StreamingClient.cpp over loopback TCP (or NULL)
+  int pending;                   // streamed messages written but not yet handled by the server
   const ola::Client *srv_client; // server-side object (identity only)
   bool closed;                   // client called Stop()
   World *w;
@@ -156,8 +160,15 @@ static string server_step(World *w, Cl *c, bool new_iteration = true) {
   if (new_iteration) loop(w);               // wake-up time := now, pending callbacks
   if (!srv_alive(w, c)) { if (!new_iteration) loop(w); return "x"; }
   string r;
+  if (c->sclient && c->pending > 0 && c->sd->DataRemaining() <= 0) {
+    struct pollfd pfd;
+    pfd.fd = c->sd->ReadDescriptor();
+    pfd.events = POLLIN;
+    poll(&pfd, 1, 2000);                    // loopback TCP: the bytes are on their way
+  }
   if (c->sd->DataRemaining() > 0) {
     c->sd->PerformRead();
+    if (c->pending > 0) c->pending--;
     r = "m";
   } else if (c->closed) {
     ola::io::ConnectedDescriptor::OnCloseCallback *cb = c->sd->TransferOnClose();
@@ -175,6 +186,7 @@ static string server_step(World *w, Cl *c, bool new_iteration = true) {
 
 static string client_step(World *w, Cl *c) {
   if (c->closed) return "x";
+  if (c->sclient) return "e";               // a StreamingClient never receives anything
   if (c->cd->DataRemaining() > 0) {
     c->cd->PerformRead();
     return "m";
@@ -183,9 +195,9 @@ static string client_step(World *w, Cl *c) {
 }
 
 static bool server_can(World *w, Cl *c) {
-  return srv_alive(w, c) && (c->sd->DataRemaining() > 0 || c->closed);
+  return srv_alive(w, c) && (c->sd->DataRemaining() > 0 || c->pending > 0 || c->closed);
 }
-static bool client_can(Cl *c) { return !c->closed && c->cd->DataRemaining() > 0; }
+static bool client_can(Cl *c) { return !c->closed && c->cd && c->cd->DataRemaining() > 0; }
 
 static int cidx(World *w, const ola::Client *p) {
   for (size_t i = 0; i < w->cls.size(); i++)
@@ -245,7 +257,10 @@ static string run_case(const string &payload) {
   // neither the test runner nor a previous case masks what OlaServer::Init() does.
   signal(SIGPIPE, SIG_DFL);
   g_sigpipes = 0;
-  unsigned ncl = vh::num(ops[0]);
+  // "<n>" or "<n>:<k>": clients k..n-1 are ola::client::StreamingClient instances (TCP)
+  vector<string> hdr = vh::split(ops[0], ':');
+  unsigned ncl = vh::num(hdr[0]);
+  unsigned first_streaming = hdr.size() > 1 ? vh::num(hdr[1]) : ncl;
   g_now = T0;
   FLAGS_rpc_port = 0;
   FLAGS_register_with_dns_sd = false;
@@ -285,19 +300,43 @@ static string run_case(const string &payload) {
     c->idx = i;
     c->w = &w;
     c->closed = false;
-    c->cd = new PipeDescriptor();
-    c->cd->Init();
-    c->sd = c->cd->OppositeEnd();
-    std::set<const ola::Client*> before = server->m_broker->m_clients;
-    server->NewConnection(c->sd);
-    ss.RemoveReadDescriptor(c->sd);          // the harness dispatches this descriptor itself
+    c->sclient = NULL;
+    c->pending = 0;
+    c->client = NULL;
     c->srv_client = NULL;
+    std::set<const ola::Client*> before = server->m_broker->m_clients;
+    if (i >= first_streaming) {
+      std::set<ola::io::ConnectedDescriptor*> socks_before = server->m_rpc_server->m_connected_sockets;
+      ola::client::StreamingClient::Options sopt;
+      sopt.auto_start = false;
+      sopt.server_port = server->LocalRPCAddress().V4Addr().Port();
+      c->sclient = new ola::client::StreamingClient(sopt);
+      if (!c->sclient->Setup()) return "streaming-setup=failed";
+      c->cd = NULL;
+      c->sd = NULL;
+      for (int tries = 0; tries < 200 && !c->sd; tries++) {
+        ss.RunOnce(ola::TimeInterval(0, 10000));       // accept the connection
+        const std::set<ola::io::ConnectedDescriptor*> &now_socks = server->m_rpc_server->m_connected_sockets;
+        for (std::set<ola::io::ConnectedDescriptor*>::const_iterator it = now_socks.begin(); it != now_socks.end(); ++it)
+          if (!socks_before.count(*it)) c->sd = *it;
+      }
+      if (!c->sd) return "streaming-accept=failed";
+    } else {
+      PipeDescriptor *pd = new PipeDescriptor();
+      pd->Init();
+      c->cd = pd;
+      c->sd = pd->OppositeEnd();
+      server->NewConnection(c->sd);
+    }
+    ss.RemoveReadDescriptor(c->sd);          // the harness dispatches this descriptor itself
     for (std::set<const ola::Client*>::const_iterator it = server->m_broker->m_clients.begin();
          it != server->m_broker->m_clients.end(); ++it)
       if (!before.count(*it)) c->srv_client = *it;
-    c->client = new OlaClient(c->cd);
-    c->client->Setup();
-    c->client->SetDMXCallback(ola::NewCallback(&ev_dmx, &w, static_cast<int>(i)));
+    if (!c->sclient) {
+      c->client = new OlaClient(c->cd);
+      c->client->Setup();
+      c->client->SetDMXCallback(ola::NewCallback(&ev_dmx, &w, static_cast<int>(i)));
+    }
     w.cls.push_back(c);
   }
 
@@ -310,7 +349,21 @@ static string run_case(const string &payload) {
     string tag;
     Cl *c = NULL;
     if (f.size() > 1 && op != "K" && op != "J") c = w.cls[vh::num(f[1]) % ncl];
-    if (op == "S" || op == "T") {
+    if (c && c->sclient && op != "T" && op != "D" && op != ">" && op != "}" && op != "<") {
+      return "bad-op-for-streaming-client=" + op;
+    }
+    if (c && c->sclient && op == "T") {
+      vector<uint8_t> d = vh::unhex(f[4]);
+      DmxBuffer buf(d.data(), d.size());
+      ola::client::StreamingClient::SendArgs sargs;
+      sargs.priority = static_cast<uint8_t>(vh::num(f[3]));
+      if (c->sclient->SendDMX(vh::num(f[2]), buf, sargs)) c->pending++;
+    } else if (c && c->sclient && op == "D") {
+      if (!c->closed) {
+        c->sclient->Stop();
+        c->closed = true;
+      }
+    } else if (op == "S" || op == "T") {
       unsigned u = vh::num(f[2]);
       vector<uint8_t> d = vh::unhex(f[4]);
       DmxBuffer buf(d.data(), d.size());
@@ -424,12 +477,13 @@ static string run_case(const string &payload) {
   // tear down: clients first (closes the pipes), then the server
   for (size_t i = 0; i < w.cls.size(); i++) {
     Cl *c = w.cls[i];
-    if (!c->closed) c->client->Stop();
+    if (!c->closed) { if (c->sclient) c->sclient->Stop(); else c->client->Stop(); }
     c->closed = true;
   }
   server.reset();
   for (size_t i = 0; i < w.cls.size(); i++) {
     delete w.cls[i]->client;
+    delete w.cls[i]->sclient;
     delete w.cls[i]->cd;
     delete w.cls[i];
   }
